@@ -137,6 +137,10 @@ def both : CastleRights := ⟨true, true⟩
 @[inline] def forSide (r : CastleRights) : Side → Bool | .king => r.kingside | .queen => r.queenside
 end CastleRights
 
+/-- `usize::saturating_add(1)` on a move counter (since the repair of F9; before it `+ 1` panicked with overflow
+checks and wrapped to 0 without) -/
+def clockSucc (n : Nat) : Nat := if n + 1 < 2^64 then n + 1 else n
+
 /-- `struct State` (the attack-map cache of `Board` is modelled separately, see `Model/AttackCache`) -/
 structure State where
   pieces : PieceMap
